@@ -1000,7 +1000,7 @@ def search_states(run: Run, T, thorough: bool):
 
 # ============================================================================== T3: kernel-checked enclosures
 
-LIST_FUNS = ("vmul vzeros_like vset vget vnorm vsub vadd vscale vdivs msub eye outer mcat_cols cols_before cols_from dot map nth length "
+LIST_FUNS = ("matvec vmul vzeros_like vset vget vnorm vsub vadd vscale vdivs msub eye outer mcat_cols cols_before cols_from dot map nth length "
              "repeat firstn skipn app Nat.add transpose matmul col ncols seq mean rsum center shift fold_right INR sigmoid tpow Rmax Rmin")
 
 T3_HEADER_TMPL = """From Coq Require Import Reals List Lra.
@@ -1192,34 +1192,114 @@ class T3:
                  what="space-shift", index=[i, c], **cfg)
 
     def prove(self):
-        names = sorted(self.sigs) + [f"gen_{SHORT[k]}_{x}" for k in KINDS_ORTHO for x in ("basis", "mixing", "space_shifts")] + ["gen_ortho_basis"]
+        names = sorted(self.sigs) + [f"gen_{SHORT[k]}_{x}" for k in KINDS_ORTHO for x in ("basis", "mixing", "space_shifts")] + ["gen_ortho_basis", "gen_ortho_basis_0d", "gen_ortho_basis_1d", "gen_ortho_basis_2d"]
         hdr = T3_HEADER_TMPL.replace("GEN_NAMES", " ".join(dict.fromkeys(names))).replace("LIST_FUNS", LIST_FUNS)
         return self.run.interval_lemmas("t3", hdr, self.lemmas, "t3.", shard=max(12, len(self.lemmas) // (14 if self.thorough else 8) + 1))
 
 
+ORTHONORMAL_ABS = 1e-5   # |B^T B - I| entry-wise (float32)
+
+
+def _metric_ndim(G):
+    return 0 if not isinstance(G, (list, tuple)) else (2 if G and isinstance(G[0], (list, tuple)) else 1)
+
+
 def basis_failures(inp):
-    """the real compute_orthonormal_basis on an explicit direction / metric: kept columns orthogonal to G o d
-    (precondition of the models: first coordinate of G o d non-zero).  Returns (failures, basis or None)."""
+    """the real compute_orthonormal_basis on an explicit direction / metric (scalar, vector or matrix) / strip_col:
+    shape, kept columns orthogonal to G d (when coordinate strip_col of G d is non-zero: C10_ortho_branches), kept columns
+    orthonormal for the canonical inner product (C10_orthonormal_branches).  Returns (failures, basis or None)."""
     import torch
     from leaspy.utils.linalg import compute_orthonormal_basis
     dt = getattr(torch, inp.get("dtype", "float32"))
     d, G = torch.tensor(inp["d"], dtype=dt), torch.tensor(inp["G"], dtype=dt)
+    nd = _metric_ndim(inp["G"])
+    strip = inp.get("strip_col")
+    pre = "basis" if (nd == 1 and not strip) else f"basis:{nd}d-metric" + (":strip_col" if strip else "")
     try:
-        B = compute_orthonormal_basis(d, G)
+        B = compute_orthonormal_basis(d, G) if strip is None else compute_orthonormal_basis(d, G, strip_col=int(strip))
     except Exception as e:
-        return [(f"basis:raises:{type(e).__name__}", f"compute_orthonormal_basis raised {type(e).__name__}: {e}", None, None)], None
+        return [(f"{pre}:raises:{type(e).__name__}", f"compute_orthonormal_basis raised {type(e).__name__}: {e}", None, None)], None
     n = len(inp["d"])
     if tuple(B.shape) != (n, n - 1):
-        return [("basis:shape", f"basis has shape {list(B.shape)} for dimension {n}", [n, n - 1], list(B.shape))], B
-    D = (G.double() * d.double())
-    if float(D[0]) == 0.0:
-        return [], B
+        return [(f"{pre}:shape", f"basis has shape {list(B.shape)} for dimension {n}", [n, n - 1], list(B.shape))], B
+    Gd, dd = G.double(), d.double()
+    D = Gd @ dd if nd == 2 else Gd * dd
+    fails = []
+    if float(D.abs().max()) > 0 and n > 1:
+        gram = B.double().t() @ B.double()
+        dev = (gram - torch.eye(n - 1, dtype=torch.float64)).abs()
+        if not torch.isfinite(dev).all() or float(dev.max()) > ORTHONORMAL_ABS:
+            a, b = divmod(int(torch.nan_to_num(dev, nan=float("inf")).argmax()), n - 1)
+            fails.append((f"{pre}:columns-not-orthonormal", f"columns {a}, {b} of the basis: q_a . q_b = {float(gram[a, b]):.6g}",
+                          1.0 if a == b else 0.0, float(gram[a, b])))
+    if float(D[int(strip or 0)]) == 0.0:
+        return fails, B
     r = (B.double().t() @ D).abs() / (B.double().norm(dim=0) * D.norm()).clamp(min=1e-300)
     if not torch.isfinite(r).all() or float(r.max()) > ORTHO_REL:
         j = int(torch.nan_to_num(r, nan=float("inf")).argmax())
-        return [("basis:column-not-orthogonal", f"column {j} of the basis is not orthogonal to G o d: |q.Gd|/(|q||Gd|) = {float(r[j]):.3g}",
-                 f"<= {ORTHO_REL}", float(r[j]))], B
-    return [], B
+        fails.append((f"{pre}:column-not-orthogonal", f"column {j} of the basis is not orthogonal to G d: |q.Gd|/(|q||Gd|) = {float(r[j]):.3g}",
+                      f"<= {ORTHO_REL}", float(r[j])))
+    return fails, B
+
+
+def _branch_inputs(rng, n, nd, c):
+    """a dyadic direction (either sign), a positive scalar / positive diagonal / symmetric positive definite matrix, a strip_col"""
+    d = [rng.choice([-1, 1]) * rng.randint(1, 64) / 16 for _ in range(n)]
+    strip = rng.randrange(n)
+    if nd == 0:
+        G = rng.randint(1, 32) / 8
+    elif nd == 1:
+        G = [rng.randint(1, 32) / 8 for _ in range(n)]
+        if strip == 0:
+            strip = n - 1           # strip_col = 0 with a 1-D metric is the models' case, covered by the first loop
+    else:
+        A = [[rng.randint(-4, 4) / 4 for _ in range(n)] for _ in range(n)]
+        G = [[sum(A[i][k] * A[j][k] for k in range(n)) + (0.5 if i == j else 0.0) for j in range(n)] for i in range(n)]   # A A^T + I/2: SPD, non-diagonal
+    if c == 1:
+        # pivot coordinate of G d exactly zero (region of C10_ortho_branches_zero_pivot_refuted): the tie must hold there too
+        if nd == 2:
+            G = [[(G[i][j] if i == j else 0.0) for j in range(n)] for i in range(n)]
+        d[strip] = 0.0
+    return d, G, strip
+
+
+def search_branches(run: Run, T, thorough: bool):
+    """every branch of compute_orthonormal_basis: scalar / diagonal (strip_col <> 0) / full metric, dims 2-6, random strip_col"""
+    rng = run.rng("basis-branches")
+    for n in range(2, 7):
+        for nd in (0, 1, 2):
+            for c in range(3 if thorough else 2):
+                d, G, strip = _branch_inputs(rng, n, nd, c)
+                inp = dict(what="basis", d=d, G=G, strip_col=strip, dtype="float32")
+                fails, B = basis_failures(inp)
+                run.case(("basis", tuple(d), json.dumps(G), strip), nontrivial=d[strip] != 0)
+                run.count("basis", f"{nd}d-metric/dim={n}/pivot={'zero' if c == 1 else 'nonzero'}")
+                for sig, what, e, o in fails:
+                    run.fail(sig, what, inp, expected=e, observed=o)
+                if T is not None and B is not None and tuple(B.shape) == (n, n - 1):
+                    cells = [(r, q) for r in range(n) for q in range(n - 1)]
+                    cells = rng.sample(cells, min(len(cells), 4 if thorough else 1))
+                    Gq = _R(G) if nd == 0 else (_Rl(G) if nd == 1 else _Rm(G))
+                    for r, q in cells:
+                        T.add(f"nth {q} (nth {r} (gen_ortho_basis_{nd}d {strip} {_Rl(d)} {Gq}) []) 0", B[r, q], _tolq(1, 3e-6),
+                              what=f"compute_orthonormal_basis:{nd}d-metric", d=d, G=G, strip_col=strip, index=[r, q])
+    # the witnesses of C10_ortho_branches_zero_pivot_refuted / C10_orthonormal_metric_refuted on the real function
+    import torch
+    rec = {}
+    for nd, G in ((0, 1.0), (1, [1.0, 1.0]), (2, [[1.0, 0.0], [0.0, 1.0]])):
+        _, B = basis_failures(dict(d=[1.0, 0.0], G=G, strip_col=1))
+        dot = None if B is None else float((B.double().t() @ torch.tensor([1.0, 0.0], dtype=torch.float64))[0])
+        rec[f"{nd}d"] = dict(d=[1, 0], G=G, strip_col=1, basis=None if B is None else B.tolist(), column_dot_Gd=dot)
+        if dot is None or abs(dot) <= 0.5:
+            run.broken("correspondence:zero-pivot-witness", f"{nd}-D metric: the code does not reproduce the witness of "
+                       f"C10_ortho_branches_zero_pivot_refuted (dot = {dot})", kind="broken-correspondence")
+    _, B = basis_failures(dict(d=[1.0, 1.0], G=2.0, strip_col=0))
+    mn = None if B is None else float(2.0 * (B.double()[:, 0] ** 2).sum())
+    rec["metric_norm_sqr_scalar_metric_2"] = mn
+    if mn is None or abs(mn - 2.0) > 1e-4:
+        run.broken("correspondence:metric-orthonormal-witness", f"the code does not reproduce the witness of C10_orthonormal_metric_refuted "
+                   f"(metric norm^2 of the kept column = {mn}, theorem: 2)", kind="broken-correspondence")
+    run.extra["branch_witnesses_on_code"] = rec
 
 
 def search_basis(run: Run, T, thorough: bool):
@@ -1372,6 +1452,7 @@ def check(run: Run, tie: bool):
     T = T3(run, run.extra["generated_signatures"]) if tie and "generated_signatures" in run.extra else None
     run.log("implementation: compute_orthonormal_basis")
     search_basis(run, T, thorough)
+    search_branches(run, T, thorough)
     run.log("implementation: real states")
     search_states(run, T, thorough)
     run.log("implementation: short real fits")
@@ -1431,7 +1512,8 @@ def replay(run: Run, path: str):
             print(f"  {k} = {v}")
     elif inp["what"] == "basis":
         fails, B = basis_failures(inp)
-        print("compute_orthonormal_basis(d =", inp["d"], ", G =", inp["G"], ") =", None if B is None else B.tolist())
+        print("compute_orthonormal_basis(d =", inp["d"], ", G =", inp["G"], ", strip_col =", inp.get("strip_col", "default"), ") =",
+              None if B is None else B.tolist())
     elif inp["what"] == "fit":
         f5, log = eval_fit(inp)
         fails = [x[:4] for x in f5]
